@@ -298,7 +298,10 @@ def sym_reversed(x):
     if isinstance(x, SymRange):
         return x.__reversed__()
     if isinstance(x, SymSeq):
-        raise Undecided("reversed symbolic sequence")
+        n = S._concrete(x._len())
+        if n is None:
+            raise Undecided("reversed symbolic sequence of symbolic length")
+        return _b.iter([x[i] for i in _b.range(n - 1, -1, -1)])
     return _b.reversed(x)
 
 
